@@ -26,11 +26,12 @@ def mk_query(prog, doms, classes=None, quant="an", **kw):
     q = normalize(q, nv)
     used = q.pop("_used")
     q["vars"] = [q["vars"][i - 1] for i in used]
+    q["varkeys"] = used          # identity of each variable in the declaration list (for sharing between queries)
     return q
 
 
-def drain_ev(qi=1, eqto=0, eqoff=0):
-    return {"op": "drain", "qi": qi, "eqto": eqto, "eqoff": eqoff}
+def drain_ev(qi=1, eqto=0, eqoff=0, eqbag=0):
+    return {"op": "drain", "qi": qi, "eqto": eqto, "eqoff": eqoff, "eqbag": eqbag}
 
 
 def domain_size(q):
@@ -520,3 +521,81 @@ def check_C07(tier, seed):
 
 
 CHECKS["C07"] = check_C07
+
+
+# ---------------------------------------------------------------------- C04
+def _with_pred(progs):
+    return [p for p in progs if count_nodes(p["cond"], "pred") > 0]
+
+
+def _session_events(beh, nq):
+    evs = []
+    for o in beh:
+        if o["op"] == "drain":
+            evs.append(drain_ev(o["qi"]))
+        elif o["op"] == "partial":
+            evs.append({"op": "partial", "qi": o["qi"], "k": o["k"], "how": o["how"]})
+        elif o["op"] == "raised":
+            evs.append({"op": "raised", "qi": o["qi"], "at": o["k"], "want": "Boom", "how": "close"})
+        elif o["op"] == "cfg":
+            evs.append({"op": "cfg", "caching": bool(o["k"])})
+    return evs
+
+
+def check_C04(tier, seed):
+    run = Run("C04", tier, seed)
+    quick = tier == "quick"
+    rng = random.Random(seed)
+    run.rule = ("histories: every sequence (to the depth bound) of full evaluations, partial evaluations (k results, then "
+                "close or drop) and evaluations aborted by a user predicate raising at its j-th call, over a pool of 2 "
+                "queries that share their variables, exported by TLC from EvalSession, plus random walks; every evaluation "
+                "of a history is judged against the denotation whatever preceded it; plus domains listing an object "
+                "twice (first vs later evaluations must agree) and a before/after snapshot of the user's lists and "
+                "objects; non-trivial = a full evaluation after an abandoned/aborted one with a non-trivial answer")
+    run.assumptions = QUERY_ASSUMPTIONS + ["an abandoned iterator is never resumed after another evaluation started"]
+    run.mc("EvalSession", "histories", constants=dict(NQ=2, MaxLen=4 if quick else 5, WithCfg=False), invariants=("TypeOK",),
+           constraint="Bound")
+    behs = run.export("EvalSession", "export", "BEH", constants=dict(NQ=2, MaxLen=3 if quick else 4, WithCfg=False),
+                      invariants=("Export",), constraint="Bound", count=False)
+    behs += run.export("EvalSession", "walks", "BEH", constants=dict(NQ=2, MaxLen=7, WithCfg=False), invariants=("Export",),
+                       constraint="Bound", simulate=400 if quick else 6000, depth=8, count=False)
+    qc = QueryCheck(run)
+    progs = {}
+    for nv in (1, 2):
+        ps = run.export("GenQuery", f"G{nv}", "PROG", constants=dict(NV=nv, LeafLimit=16 if nv == 1 else 12, MaxLeaves=2,
+                                                                      MaxNot=1, NeedNot=False), count=False)
+        ps += run.export("GenQuery", f"G{nv}-sim", "PROG", constants=dict(NV=nv, LeafLimit=45 if nv == 1 else 34, MaxLeaves=4,
+                                                                         MaxNot=2, NeedNot=False),
+                         simulate=500 if quick else 4000, depth=14, count=False)
+        progs[nv] = ps
+    for b in behs:
+        for _ in range(1 if quick else 3):
+            nv = rng.choice((1, 2))
+            needs_pred = any(o["op"] == "raised" for o in b)
+            pool = _with_pred(progs[nv]) if needs_pred and rng.random() < 0.8 else progs[nv]
+            W, doms = _world_and_doms(rng, nv, quick)
+            qs = [mk_query(rng.choice(pool), doms), mk_query(rng.choice(progs[nv]), doms)]
+            qc.add(W, qs, _session_events(b, 2), share_vars=rng.random() < 0.7)
+    # duplicate-listing domains: the first and every later evaluation agree
+    for _ in range(150 if quick else 2000):
+        p = rng.choice(progs[1])
+        W = datasets.random_world(rng, rng.randint(2, 4))
+        n = len(W["objs"])
+        dom = [rng.randint(1, n) for _ in range(rng.randint(2, 5))]
+        qc.add(W, [mk_query(p, [dom])], [drain_ev(1), drain_ev(1, eqbag=1), drain_ev(1, eqbag=1)], tag="dup")
+
+    def nontrivial(t):
+        seen_abort = False
+        for ev in t["evs"]:
+            if ev["op"] in ("partial", "raised") and (ev["op"] == "partial" or ev["exc"] != "none"):
+                seen_abort = True
+            if ev["op"] == "drain" and seen_abort and ev["exc"] == "none":
+                q = t["qs"][ev["qi"] - 1]
+                if 0 < len(ev["rows"]) < domain_size(q):
+                    return digest([t["qs"], [(e["op"], e.get("qi"), e.get("k"), e.get("at")) for e in t["evs"]]])
+        return None
+    qc.execute(nontrivial)
+    return run.finish()
+
+
+CHECKS["C04"] = check_C04
